@@ -84,7 +84,7 @@ prop("C19", design_ref="DESIGN.md 5 (C19), Corrections",
      level_text="Proved for all sizes: encoder, TileLayout and tile-decoder rectangles coincide, tiles are non-empty, disjoint and cover the image, extraction + assembly is the identity, origin-aware band geometry = DWT split, 5/3 inverse for every origin. End to end (T2 with tiles, global PCRD) decided by the tiled round-trip oracle incl. a corpus of the five earlier failure classes.",
      level_note=COMMON_NOTE)
 prop("C20", design_ref="DESIGN.md 5 (C20), Corrections",
-     level_text="Complete for RCT (all integers; int32 within +-2^28), 5/3 DWT (1-D every length and parity, 2-D, multilevel any origin), MQ (unbounded round trip for any decision sequence and initial contexts, encoder invariant, decoder bounds, ErtermEnc and raw-segment round trips) and T1: symbol-level lockstep for every block size, orientation, style word and pass count (LUTs = Annex D over all entries) AND the byte-level round trip t1_decode(t1_encode(block)) = block for every block and every code-block style without LAZY/PTERM (16 styles; PTERM without LAZY/TERMALL when fb >= 1) — the codec uses style 0. LAZY (bypass) and the remaining PTERM combinations are stated and decided on bounded domains by computation and by the byte-exact correspondence.",
+     level_text="Complete for RCT (all integers; int32 within +-2^28), 5/3 DWT (1-D every length and parity, 2-D, multilevel any origin), MQ (unbounded round trip for any decision sequence and initial contexts, encoder invariant, decoder bounds, ErtermEnc and raw-segment round trips) and T1: symbol-level lockstep for every block size, orientation, style word and pass count (LUTs = Annex D over all entries) AND the byte-level round trip t1_decode(t1_encode(block)) = block for every block and ALL 64 code-block styles (bypass/LAZY, RESET, TERMALL, VSC, PTERM, SEGSYM in any combination): unconditional for the 32 styles without PTERM (and 8 more when fb >= 1), for PTERM on a terminated pass under the explicit hypothesis that the encoder's stream is not empty (GetBuffer drops a final 0xFF; no such stream is known). Truncated decoding (first n passes) is a stated Definition.",
      level_note=COMMON_NOTE + " int32 wrap written explicitly in the RCT model; DWT over Z with a growth lemma.",
      trusted=["Go int32 arithmetic is modelled with explicit wrapS 32 in the RCT model; DWT/MQ/T1 models over Z with stated range hypotheses"],
      assumptions=["model = code shown only on the generated cases (byte/integer-exact comparison)"])
